@@ -42,7 +42,8 @@ mod tok {
 }
 
 const PKS: [&str; 4] = ["5120aa", "5120bb01", "0014cc", "76a914dd88ac"];
-const TICKS: [&str; 3] = ["ordi", "sats", "Ab"];
+// the last one has a non-ASCII cased letter: tickers are case-insensitive for those too
+const TICKS: [&str; 4] = ["ordi", "sats", "Ab", "\u{f6}rdi"];
 const CONTROLLER: &str = "0xc54dd4581af2dbf18e4d90840226756e9d2b3cdb";
 
 pub struct Params {
